@@ -41,9 +41,13 @@ def gen(rnd):
     if coincident:
         # a source exactly at a station (a shot fired at a receiver): distance 0 for that datum
         x[0:per - 1] = [rx[0]] + ([ry[0]] if three else []) + [rz[0]]
+    near = (not coincident) and rnd.random() < 0.15
+    if near:
+        # a source half a metre from a station (coordinates in km): a perfectly regular point of the misfit
+        x[0:per - 1] = [rx[0] + 2.0 ** -12] + ([ry[0]] if three else []) + [rz[0] + 2.0 ** -11]
     # the constructors also take data / per-datum sigmas laid out (stations, events) and transpose them
     layout = rnd.choice(["event_major", "event_major", "data_station_major", "sigma_station_major", "both_station_major"]) if ne != ns else "event_major"
-    return {"velocity_hint": rnd.random() < 0.35, "layout": layout, "coincident": coincident, "ne": ne, "ns": ns, "three": three, "rx": rx, "ry": ry, "rz": rz, "infer": infer, "v": v, "obs": obs, "sd_scalar": sd_scalar, "s0": s0,
+    return {"near_station": near, "velocity_hint": rnd.random() < 0.35, "layout": layout, "coincident": coincident, "ne": ne, "ns": ns, "three": three, "rx": rx, "ry": ry, "rz": rz, "infer": infer, "v": v, "obs": obs, "sd_scalar": sd_scalar, "s0": s0,
             "sds": sds, "x": x, "pattern": pattern}
 
 
@@ -138,6 +142,20 @@ def run(tier, seed):
                     dT = float(obj.misfit(xp)) - float(obj.misfit(xm))
                 if math.isfinite(dT) and abs(dT - grad[k]) > 1e-8 * (abs(dT) + abs(grad[k]) + 1.0):
                     violations.append(Violation("origin-time-derivative", f"{desc} at {x}: d misfit / d T of event {e} is {dT} (central difference of a quadratic), "
+                                                f"gradient component {k} is {grad[k]}", {"case": c}))
+                    break
+        if c.get("near_station") and math.isfinite(mis):
+            # close to a station the enclosure below is the tie; the statement itself, by central differences over a step well below the
+            # distance to the station (error of order (h / distance)^2 ~ 1e-3)
+            for k in range(per_ - 1):
+                h = 2.0 ** -16
+                xp, xm = xa.copy(), xa.copy()
+                xp[k, 0] += h
+                xm[k, 0] -= h
+                with numpy.errstate(all="ignore"):
+                    fd = (float(obj.misfit(xp)) - float(obj.misfit(xm))) / (2 * h)
+                if math.isfinite(fd) and abs(fd - grad[k]) > 0.03 * (abs(fd) + abs(grad[k])) + 1e-6:
+                    violations.append(Violation("gradient-near-station", f"{desc} at {x} (event 0 half a metre from station 0): d misfit / d coordinate {k} is {fd} by central differences, "
                                                 f"gradient component {k} is {grad[k]}", {"case": c}))
                     break
         if not c["coincident"]:     # the model divides by the distance; at distance 0 only the statement itself is checked
